@@ -414,3 +414,29 @@ fn c17_reject_get_with_body() {
 fn c17_reject_post_without_body() {
     c17_reject_case(2, 2, false, false);
 }
+
+/// Phase by menu index: 0 SendLine, 1 SendHeaders(i), 2 SendBody, 3 RecvResponse, 4 RecvBody.
+pub(crate) fn mk_state_phase(pk: usize, hi: usize, writer: BodyWriter, reader: Option<BodyReader>) -> BodyState {
+    let phase = match pk {
+        0 => Phase::SendLine,
+        1 => Phase::SendHeaders(hi),
+        2 => Phase::SendBody,
+        3 => Phase::RecvResponse,
+        _ => Phase::RecvBody,
+    };
+    mk_state(phase, writer, reader)
+}
+
+/// A `Call` in type state `S` from primitive arguments (BodyState is private to this module).
+pub(crate) fn mk_call_in<S>(pk: usize, hi: usize, writer: BodyWriter, reader: Option<BodyReader>, analyzed: bool) -> Call<S, ()> {
+    mk_call(mk_state_phase(pk, hi, writer, reader), analyzed)
+}
+
+pub(crate) fn mk_call_real<S>(pk: usize, hi: usize, writer: BodyWriter, reader: Option<BodyReader>, analyzed: bool) -> Call<S, ()> {
+    Call {
+        request: AmendedRequest::new(Request::new(())),
+        analyzed,
+        state: mk_state_phase(pk, hi, writer, reader),
+        _ph: PhantomData,
+    }
+}
